@@ -61,6 +61,8 @@ Fragment 𝔽₂ (function bodies with statements, `Model/CSem2.lean`, `Model/Lo
            | (adecl K TY N)                       `TY a[N];` - variable K is an array (stage E)
            | (aload D DT A TY N EXPR)             `x = a[EXPR];` x = variable D of type DT, a = variable A
            | (astore A TY N IDX EXPR)             `a[IDX] = EXPR;` (EXPR converted to TY)
+    In (decl K TY EXPR), (set …), (expr …), (ret …) the EXPR may contain (idx TY A N EXPR) - `a[EXPR]`, a the
+    array variable A of N elements of type TY - and (calle RT NAME EXPR …) - a call; their operands are pure.
 A PROGRAM (stage D, `Model/CSem3.lean`) is a line `(prog FUNC2 …)`: `emit` prints its functions in order;
 `eval` on `(prog …) | a1 a2 …` calls the LAST function with the arguments: `c=` is `CSem3.runP`, `il=` the
 result of `Qbe.runFunc` on the module of all emitted functions; `wt=0` unless `CSem3.wtP`.
@@ -138,6 +140,30 @@ def parseExprF : Nat → SExp → Except String Expr
       | none => .error ("operator: " ++ op)
     | _ => .error "expression"
 
+/-- an expression of a statement of 𝔽₂ that may read array elements `(idx TY A N EXPR)` and call functions
+    `(calle RT NAME EXPR …)` (index and arguments: pure expressions); a subtree without them is kept as a
+    pure expression -/
+def parseExpr3F : Nat → SExp → Except String CSem2.Expr3
+  | 0, _ => .error "expression too deep"
+  | n + 1, e =>
+    match parseExprF (n + 1) e with
+    | .ok x => pure (.pure x)
+    | .error _ =>
+      match e with
+      | .list [.atom "idx", t, a, cnt, x] => do
+        pure (.idx (← parseTy t) (← parseNat a) (← parseNat cnt) 0 (← parseExprF n x))
+      | .list (.atom "calle" :: rt :: .atom name :: args) => do
+        pure (.call (← parseTy rt) name (← args.mapM (parseExprF n)))
+      | .list [.atom "cast", t, e] => do pure (.cast (← parseTy t) (← parseExpr3F n e))
+      | .list [.atom "neg", t, e] => do pure (.neg (← parseTy t) (← parseExpr3F n e))
+      | .list [.atom "cond", t, c, a, b] => do
+        pure (.cond (← parseTy t) (← parseExpr3F n c) (← parseExpr3F n a) (← parseExpr3F n b))
+      | .list [.atom op, t, l, r] =>
+        match parseOp op with
+        | some o => do pure (.bin o (← parseTy t) (← parseExpr3F n l) (← parseExpr3F n r))
+        | none => .error ("operator: " ++ op)
+      | _ => .error "expression"
+
 def parseFunc (fuel : Nat) : SExp → Except String CSem.Func
   | .list [.atom "fn", .atom name, ret, .list ps, body] => do
     pure ⟨name, ← parseTy ret, ← ps.mapM parseTy, ← parseExprF fuel body⟩
@@ -155,29 +181,29 @@ def parseStmtF : Nat → SExp → Except String Stmt
     | .list [.atom "skip"] => pure .skip
     | .list [.atom "decl", k, t] => do pure (.decl (← parseNat k) (← parseTy t) none)
     | .list [.atom "decl", k, t, x] => do
-      pure (.decl (← parseNat k) (← parseTy t) (some (← parseExprF n x)))
-    | .list [.atom "set", k, t, x] => do pure (.assign (← parseNat k) (← parseTy t) (← parseExprF n x))
+      pure (.decl (← parseNat k) (← parseTy t) (some (← parseExpr3F n x)))
+    | .list [.atom "set", k, t, x] => do pure (.assign (← parseNat k) (← parseTy t) (← parseExpr3F n x))
     | .list [.atom "inc", k, t] => do pure (.incdec (← parseNat k) (← parseTy t) true)
     | .list [.atom "dec", k, t] => do pure (.incdec (← parseNat k) (← parseTy t) false)
-    | .list [.atom "expr", x] => do pure (.expr (← parseExprF n x))
-    | .list [.atom "ret", x] => do pure (.ret (← parseExprF n x))
+    | .list [.atom "expr", x] => do pure (.expr (← parseExpr3F n x))
+    | .list [.atom "ret", x] => do pure (.ret (← parseExpr3F n x))
     | .list (.atom "block" :: ss) =>
       let rec blk : List SExp → Except String Stmt
         | [] => pure .skip
         | [s] => parseStmtF n s
         | s :: r => do pure (.seq (← parseStmtF n s) (← blk r))
       blk ss
-    | .list [.atom "if", c, a] => do pure (.ite (← parseExprF n c) (← parseStmtF n a))
+    | .list [.atom "if", c, a] => do pure (.ite (← parseExpr3F n c) (← parseStmtF n a))
     | .list [.atom "ifelse", c, a, b] => do
-      pure (.itee (← parseExprF n c) (← parseStmtF n a) (← parseStmtF n b))
-    | .list [.atom "while", c, b] => do pure (.while_ (← parseExprF n c) (← parseStmtF n b))
-    | .list [.atom "do", b, c] => do pure (.dowhile (← parseStmtF n b) (← parseExprF n c))
+      pure (.itee (← parseExpr3F n c) (← parseStmtF n a) (← parseStmtF n b))
+    | .list [.atom "while", c, b] => do pure (.while_ (← parseExpr3F n c) (← parseStmtF n b))
+    | .list [.atom "do", b, c] => do pure (.dowhile (← parseStmtF n b) (← parseExpr3F n c))
     | .list [.atom "for", i, c, st, b] => do
       let c' ← match c with
         | .list [.atom "none"] => pure none
-        | c => do pure (some (← parseExprF n c))
+        | c => do pure (some (← parseExpr3F n c))
       pure (.seq (← parseStmtF n i) (.for_ c' (← parseStmtF n st) (← parseStmtF n b)))
-    | .list [.atom "switch", c, b] => do pure (.switch_ (← parseExprF n c) (← parseStmtF n b))
+    | .list [.atom "switch", c, b] => do pure (.switch_ (← parseExpr3F n c) (← parseStmtF n b))
     | .list [.atom "case", u] => do pure (.case_ (← parseNat u))
     | .list [.atom "default"] => pure .default_
     | .list (.atom "call" :: dst :: rt :: .atom name :: args) => do
@@ -193,21 +219,33 @@ def parseStmtF : Nat → SExp → Except String Stmt
       pure (.aload (← parseNat d) (← parseTy dt) (← parseNat a) (← parseTy t) (← parseNat cnt) 0
         (← parseExprF n x))
     | .list [.atom "astore", a, t, cnt, x, v] => do
-      pure (.astore (← parseNat a) (← parseTy t) (← parseNat cnt) 0 (← parseExprF n x) (← parseExprF n v))
+      pure (.astore (← parseNat a) (← parseTy t) (← parseNat cnt) 0 (← parseExprF n x) (← parseExpr3F n v))
     | _ => .error "statement"
 
 /-- fill in the cell numbers of the array elements (`CSem2.xbase`), which the layout determines -/
+def setXb3 (cnts : List Nat) : CSem2.Expr3 → CSem2.Expr3
+  | .idx t a n _ x => .idx t a n (CSem2.xbase cnts a) x
+  | .cast t e => .cast t (setXb3 cnts e)
+  | .neg t e => .neg t (setXb3 cnts e)
+  | .bin o t l r => .bin o t (setXb3 cnts l) (setXb3 cnts r)
+  | .cond t c a b => .cond t (setXb3 cnts c) (setXb3 cnts a) (setXb3 cnts b)
+  | e => e
+
 def setXb (cnts : List Nat) : CSem2.Stmt → CSem2.Stmt
+  | .decl i t (some e) => .decl i t (some (setXb3 cnts e))
+  | .assign i t e => .assign i t (setXb3 cnts e)
+  | .expr e => .expr (setXb3 cnts e)
+  | .ret e => .ret (setXb3 cnts e)
   | .seq a b => .seq (setXb cnts a) (setXb cnts b)
-  | .ite c a => .ite c (setXb cnts a)
-  | .itee c a b => .itee c (setXb cnts a) (setXb cnts b)
-  | .while_ c b => .while_ c (setXb cnts b)
-  | .dowhile b c => .dowhile (setXb cnts b) c
-  | .for_ c st b => .for_ c (setXb cnts st) (setXb cnts b)
-  | .switch_ e b => .switch_ e (setXb cnts b)
+  | .ite c a => .ite (setXb3 cnts c) (setXb cnts a)
+  | .itee c a b => .itee (setXb3 cnts c) (setXb cnts a) (setXb cnts b)
+  | .while_ c b => .while_ (setXb3 cnts c) (setXb cnts b)
+  | .dowhile b c => .dowhile (setXb cnts b) (setXb3 cnts c)
+  | .for_ c st b => .for_ (c.map (setXb3 cnts)) (setXb cnts st) (setXb cnts b)
+  | .switch_ e b => .switch_ (setXb3 cnts e) (setXb cnts b)
   | .adecl i t n _ => .adecl i t n (CSem2.xbase cnts i)
   | .aload d dt a t n _ x => .aload d dt a t n (CSem2.xbase cnts a) x
-  | .astore a t n _ x v => .astore a t n (CSem2.xbase cnts a) x v
+  | .astore a t n _ x v => .astore a t n (CSem2.xbase cnts a) x (setXb3 cnts v)
   | st => st
 
 def parseFunc2 (fuel : Nat) : SExp → Except String CSem2.Func
